@@ -140,8 +140,10 @@ PROPS.update({
     'C20': P('other', 'contract-based deductive verification of utils.py with an abstract text theory (len, visible length, concatenation, spaces): colored_text has visible width max(len(text), width); '
              '_TextTableRow.repr has visible width sum(width_i + 2) plus the borders, is one line and not empty, for every number of columns (loop invariant) given that every cell fits its column; '
              'TextTable.text_repr computes column widths that every cell fits (two nested loops over a dict whose keys are shown to stay 0..n-1 in insertion order) and returns one line per row, every line of the same visible width. '
-             'Level `other`: _Repr (rows = depth-first listing, indentation, link cells) and the usage table are covered by the bounded stand-in only.',
-             ['_Repr.repr / __print_task_subtree / __get_field_value', 'ResourceUsageReport.__repr__'],
+             'The usage table (contracts/usage.py): ResourceUsageReport.__repr__ is proved to hand text_repr a table of one header line plus one line per day d = first, first + 1 day, ... up to the last reservation (n lines with first + (n-1) days <= last < first + n days), '
+             'every line with the date cell plus one cell per resource; the builders TextTable.new_row / new_cell and _TextTableRow.add_cell are proved on the same model (rows and cells as heap objects). '
+             'Level `other`: _Repr (rows = depth-first listing, indentation, link cells) and what the cells of the usage table say are covered by the bounded stand-in only.',
+             ['_Repr.repr / __print_task_subtree / __get_field_value', 'cell texts of ResourceUsageReport.__repr__ (date format, one decimal, colours)'],
              ['abstract text theory T3: additive len/vis equations for str concatenation and repetition', 'pre-condition: bg_color is None at every call (true of all call sites in the repository)'], design_ref='8/C20'),
     'C13': P('other', 'contract-based deductive verification of the field-level inverse pairs: the five cell parsers of csv_io.py are proved against their specification, and for every default column the cell '
              'expression of write_csv (taken from the real AST) rendered by the csv writer and read back by the parser specification is proved equivalent to the field (None ~ empty text); the TaskRaw fields built by '
